@@ -168,7 +168,12 @@ func checkC15(c *Ctx) {
 	}
 	fns := c.shippedFuncs(G, TD)
 	pkgOf := map[string]string{"conn": G, "Server": G, "Mux": G, "ResponseWriter": G, "Directory": TD}
-	// ---- classification completeness
+	// ---- classification completeness (fields the table does not know are classified from their accesses below)
+	type unlistedField struct {
+		typ string
+		fld *types.Var
+	}
+	var unlisted []unlistedField
 	for typ, pkg := range pkgOf {
 		nt := c.P.NamedType(pkg, typ)
 		if nt == nil {
@@ -178,7 +183,7 @@ func checkC15(c *Ctx) {
 		st := nt.Underlying().(*types.Struct)
 		for i := 0; i < st.NumFields(); i++ {
 			if _, ok := c15Table[typ][st.Field(i).Name()]; !ok {
-				R.Unknown("C15-classified", typ+"."+st.Field(i).Name(), c.P.Pos(st.Field(i).Pos()), "field is not in the concurrency classification table: add it (immutable / guarded / confined) after reading how it is shared")
+				unlisted = append(unlisted, unlistedField{typ, st.Field(i)})
 			}
 		}
 		for f := range c15Table[typ] {
@@ -312,6 +317,61 @@ func checkC15(c *Ctx) {
 			return true, held.String()
 		}
 		return false, held.String()
+	}
+	// fields the table does not list (added since it was written): classify them from how they are used
+	for _, u := range unlisted {
+		name := u.typ + "." + u.fld.Name()
+		pos := c.P.Pos(u.fld.Pos())
+		ft := u.fld.Type()
+		if p, ok := ft.(*types.Pointer); ok {
+			ft = p.Elem()
+		}
+		if nt, ok := ft.(*types.Named); ok && nt.Obj().Pkg() != nil && (nt.Obj().Pkg().Path() == "sync" || nt.Obj().Pkg().Path() == "sync/atomic") {
+			R.OK("C15-classified", name+" (not in the table)", pos, "a "+nt.Obj().Pkg().Path()+"."+nt.Obj().Name()+": synchronises itself")
+			continue
+		}
+		as := acc[key{u.typ, u.fld.Name()}]
+		onlyCtor := true
+		for _, a := range as {
+			if a.write && !isCtor(a) {
+				onlyCtor = false
+			}
+		}
+		if onlyCtor {
+			R.OK("C15-classified", name+" (not in the table)", pos, sprintf("written only while the object is built (%d accesses): immutable afterwards", len(as)))
+			continue
+		}
+		// a mutex of the same struct held at every access after construction
+		guard := ""
+		if nt := c.P.NamedType(pkgOf[u.typ], u.typ); nt != nil {
+			st := nt.Underlying().(*types.Struct)
+			for i := 0; i < st.NumFields() && guard == ""; i++ {
+				mt := st.Field(i).Type()
+				if p, ok := mt.(*types.Pointer); ok {
+					mt = p.Elem()
+				}
+				if !an.TypeIs(mt, "sync", "Mutex") && !an.TypeIs(mt, "sync", "RWMutex") {
+					continue
+				}
+				all := true
+				for _, a := range as {
+					if isCtor(a) {
+						continue
+					}
+					if held, _ := mutexHeld(a, st.Field(i).Name(), !a.write); !held {
+						all = false
+					}
+				}
+				if all {
+					guard = st.Field(i).Name()
+				}
+			}
+		}
+		if guard != "" {
+			R.OK("C15-classified", name+" (not in the table)", pos, sprintf("every access after construction (%d) holds %s.%s", len(as), u.typ, guard))
+			continue
+		}
+		R.Unknown("C15-classified", name, pos, "field is not in the concurrency classification table and is neither a sync type, nor written only during construction, nor accessed only under one mutex of the struct: cannot show its accesses are race-free")
 	}
 	var keys []key
 	for k := range acc {
